@@ -68,9 +68,39 @@ def feature_paths(chk, sd, binp):
     pc.judge(chk, tp, scripts, {"C13"}, sd, "feat")
 
 
+def removal_paths(chk, sd, binp):
+    """per-backend totals "equal the number of requests each backend was actually sent" also for a backend that is
+    removed while one of its exchanges is still in flight (the pool model's generator never does that): some completed
+    traffic, one held exchange per backend, removal of b1, release, snapshot; then the same with b1 added again"""
+    scripts = []
+    for strat in ("round_robin", "least_connections", "weighted_round_robin"):
+        for readd in (False, True):
+            for pre in (2, 4):
+                steps, rid = [], 0
+                for _ in range(pre):
+                    rid += 1
+                    steps.append({"a": "req", "id": rid, "client": "10.0.0.1", "plan": "ok"})
+                h1, h2 = rid + 1, rid + 2
+                steps += [{"a": "req", "id": h1, "client": "10.0.0.1", "plan": "hold"}, {"a": "req", "id": h2, "client": "10.0.0.2", "plan": "hold"},
+                          {"a": "admin", "op": "remove", "name": "b1"}]
+                if readd:
+                    steps.append({"a": "admin", "op": "add", "name": "b1", "addr": "http://b1.backend.test:80", "w": 1})
+                steps += [{"a": "release", "id": h1, "plan": "ok"}, {"a": "release", "id": h2, "plan": "ok"}, {"a": "snap", "s": "end"}]
+                scripts.append({"id": "rm-%s-%d-%d" % (strat, int(readd), pre),
+                                "cfg": {"strategy": strat, "backends": [{"name": "b1", "w": 1}, {"name": "b2", "w": 1}],
+                                        "passive": {"on": False, "thr": 1, "win": 1}, "active": {"on": False, "iv": 1}},
+                                "steps": steps})
+    tp = pc.replay(binp, scripts, sd, "rm")
+    chk.cov["traces_validated_against_impl"] += len(scripts)
+    for s in scripts:
+        chk.count_case([s["id"]])
+    pc.judge(chk, tp, scripts, {"C13"}, sd, "rm")
+
+
 def extra(chk, sd, binp):
     gauge_schedules(chk, sd, binp)
     feature_paths(chk, sd, binp)
+    removal_paths(chk, sd, binp)
 
 
 def run(tier):
